@@ -11,11 +11,18 @@
     callers and callees (a helper that fills `a[pv]` of the array it was handed stores into the caller's array), every store is a
     cell `(identity, index value, stored value, node, clock)` of one shared trace;
   * module-level constants are folded per module; `np.matmul`, `np.negative`, `np.outer`, `.T` / `np.transpose`, `.dot`, `.sum`,
-    `slice(i, i + 1)`, `getattr(x, name)` with a computed literal name and an alias of a library function (`solve = la.solve`) are understood;
+    `slice(i, i + 1)`, `getattr / setattr(x, name)` with a computed literal name, an alias of a library function (`solve = la.solve`), a computed
+    callee (`(self.f if c else self.g)(...)`), np.not_equal & co., fields of a SimpleNamespace built here, `**{literal dict}` are understood;
+    np.zeros & co. create an array identity wherever they are evaluated (comprehension, tuple, return), `.copy()` / np.zeros_like a new one;
+    membership tests are decided on the value of the container (`set("dva") - set(incrb)`, `.difference`, `|`, `&`, literal tuples, `.count`,
+    `.find`), order comparisons from the comparisons between the same two quantities the configuration already fixes;
+  * private helpers imported from a sibling module and static methods called through the class are followed like methods;
   * subscripts that only reshape (`[:, None]`, `[None, :]`, `[np.newaxis, :]`, `[...]`) are the array itself, `X[:, I]` is `idx(X, I)`;
     with `erase_loop_index` the counter of a generic loop over the frequency axis is dropped as well (everything is element-wise there);
-  * `for x in <literal tuple>` is unrolled, other loops are evaluated once for a generic iteration, `continue` / `break` end it;
-    comprehensions over a literal tuple give a tuple, others the generic element.
+  * `for x in <literal tuple / string / range(const) / zip / enumerate / reversed / dict.items() of such>` is unrolled, other loops are
+    evaluated once for a generic iteration, `continue` / `break` end it; comprehensions over such an iterable give a tuple (filters decided
+    by the configuration), others the generic element; `x.append(v)` extends a list held item by item; `with` blocks are evaluated;
+  * `explore` evaluates a function once per combination of the atomic tests the configuration leaves open (`_ForkConfig`).
 
 Nothing of pyyeti is imported or run.  `rewrite` maps the atoms of a value (used to erase partition indices for the formula rules)."""
 from __future__ import annotations
@@ -159,6 +166,7 @@ _NEG = {"Is": "IsNot", "IsNot": "Is", "Eq": "NotEq", "NotEq": "Eq", "In": "NotIn
 _SWAP = {"Eq": "Eq", "NotEq": "NotEq", "Lt": "Gt", "Gt": "Lt", "LtE": "GtE", "GtE": "LtE", "Is": "Is", "IsNot": "IsNot"}
 
 
+_SAT = {"Lt": {"<"}, "LtE": {"<", "="}, "Eq": {"="}, "NotEq": {"<", ">"}, "GtE": {"=", ">"}, "Gt": {">"}}
 _SETLIKE_CALLS = {"call:set", "call:frozenset", "call:list", "call:tuple", "call:sorted"}
 
 
@@ -241,6 +249,10 @@ class Config:
                 la, lb = _literal_like(a), _literal_like(b)
                 if la is not None and lb is not None and la != lb:
                     return not pos
+                if op in ("Eq", "NotEq"):
+                    r = self._ordered(op, a, b)
+                    if r is not None:
+                        return r
                 r = self._find_test(op, a, b)
                 if r is not None:
                     return r
@@ -259,10 +271,9 @@ class Config:
                 if op == "LtE" and b.is_const() and b.const_value() == 0 and not a.is_const():
                     r = self.truth(a)
                     return None if r is None else (not r)
-                # an equality the configuration fixes decides the order comparisons between the same two quantities
-                e = self.tab.get(vkey(F.fn("cmp:Eq", a, b)))
-                if e is True:
-                    return op in ("GtE", "LtE")
+                r = self._ordered(op, a, b)
+                if r is not None:
+                    return r
                 r = self._find_test(op, a, b)
                 if r is not None:
                     return r
@@ -276,6 +287,29 @@ class Config:
             return self._member(args[1], args[0])          # s.count(x) as a test: x in s
         if name in _SETLIKE_CALLS and len(args) == 1:
             return self.truth(args[0])
+        return None
+
+    def _ordered(self, op, a, b):
+        """a comparison between two quantities, from the comparisons between the same two the configuration already fixes: the relations
+        (<, =, >) they leave possible either all satisfy `op`, or none does, or it stays open"""
+        poss = {"<", "=", ">"}
+        known = False
+        for x, y, flip in ((a, b, False), (b, a, True)):
+            for o, sat in _SAT.items():
+                t = self.tab.get(vkey(F.fn("cmp:" + o, x, y)))
+                if t is None:
+                    continue
+                known = True
+                rel = sat if t else ({"<", "=", ">"} - sat)
+                if flip:
+                    rel = {{"<": ">", ">": "<", "=": "="}[z] for z in rel}
+                poss &= rel
+        if not known or op not in _SAT:
+            return None
+        if poss <= _SAT[op]:
+            return True
+        if not (poss & _SAT[op]):
+            return False
         return None
 
     def _find_test(self, op, a, b):
@@ -451,6 +485,15 @@ class PathEval(AutoEvaluator):
             return [F.sym(repr(ch)) for ch in node.value]
         if isinstance(node, (ast.Tuple, ast.List)):
             return [self.ev(e) for e in node.elts]
+        if isinstance(node, ast.Subscript) and isinstance(node.slice, ast.Slice) and node.slice.step is None and node.slice.upper is not None:
+            # the first items of an opaque sequence: `entry[:3]` -> entry[0], entry[1], entry[2]
+            bv = self.ev(node.value)
+            lo = self.ev(node.slice.lower) if node.slice.lower is not None else F.const(0)
+            hi = self.ev(node.slice.upper)
+            if not isinstance(bv, (tuple, DictValue)) and not is_unknown(bv) and all(
+                    not is_unknown(b) and not isinstance(b, (tuple, DictValue)) and b.is_const() and b.const_value().denominator == 1 and b.const_value() >= 0
+                    for b in (lo, hi)) and 0 <= int(hi.const_value()) - int(lo.const_value()) <= 8:
+                return [F.fn("idx", need(bv), F.const(k)) for k in range(int(lo.const_value()), int(hi.const_value()))]
         if isinstance(node, ast.Call) and dotted(node.func) == "zip" and node.args and not node.keywords:
             cols = [self._literal_items(a) for a in node.args]
             if any(c is None for c in cols):
@@ -1005,7 +1048,14 @@ class PathEval(AutoEvaluator):
             return self._for(st)
         if isinstance(st, ast.While):
             return self._while(st)
-        if isinstance(st, (ast.With, ast.Try, ast.For)):
+        if isinstance(st, ast.With):
+            # a context manager (np.errstate, warnings.catch_warnings, ...) does not change what the block computes
+            for item in st.items:
+                v = self.ev(item.context_expr)
+                if item.optional_vars is not None:
+                    self._assign(item.optional_vars, v, st)
+            return self.run(st.body)
+        if isinstance(st, (ast.Try, ast.For)):
             # not lowered: whatever is computed inside is unknown to the rules
             self.trace.undecided.append((st, self.fn.name))
         return super().stmt(st)
@@ -1209,6 +1259,8 @@ def _may_alias(v, trace):
 def _literal_iter(node):
     """an iterable whose items may be readable from the source: a display, a string, a name, or range / zip / enumerate / reversed / d.items() of such"""
     if isinstance(node, (ast.Tuple, ast.List, ast.Constant, ast.Name)):
+        return True
+    if isinstance(node, ast.Subscript) and isinstance(node.slice, ast.Slice):
         return True
     if isinstance(node, ast.Call) and dotted(node.func) in ("range", "zip", "enumerate", "reversed", "list", "tuple"):
         return True
